@@ -191,7 +191,7 @@ class FrameSim(Sim):
         shapes = [tuple(b), (b[1],), (1, b[1]), (b[0], 1), (b[1], b[0]), (), (b[1], b[1]), (2, b[0], b[1]), (1, 2, 4), (1, 2, 3, 4), (2, 2, 3), (2, b[1], 2)]
         w = [6, 3, 2, 2, 3, 1, 2, 2, 2, 2, 2, 2]
         shape = rng.choices(shapes, w)[0]
-        if rng.random() < 0.02:
+        if rng.random() < 0.004:
             shape = (rng.choice([257, 300]), 256)          # rarely a LARGE tensor (size-dependent fast paths)
         dt = np.float32 if rng.random() < 0.2 else np.float64
         if len(shape) == 2 and shape[1] == 256:
